@@ -202,6 +202,8 @@ def handleLine (ds : DState) (line : String) : DState × Json :=
         | "nodefilter" => some (handleNodeFilter j)
         | "resources" => some (handleResources j)
         | "awsop" => some (handleAwsOp j)
+        | "validate" => some (handleValidate j)
+        | "decode" => some (handleDecode j)
         | _ => none
       match out with
       | none => (ds, Json.mkObj [("error", toJson ("unknown op " ++ other))])
